@@ -284,7 +284,7 @@ def gen_builds(rep, tier):
             for ps in range(1, n + 2):
                 yield (1, [list(r) for r in rows], ps, 10, q1, 'partial-nan-1d')
     # (ii) d = 2, 3 (and some d = 1 with larger n): seeded stream
-    nbuilds = 6500 if quick else 150000
+    nbuilds = 5000 if quick else 150000
     nmax = 12 if quick else 60
     for i in range(nbuilds):
         d = rng.choice([2, 2, 3, 3, 1])
@@ -322,19 +322,21 @@ def run(rep):
                 '(ties with every row side, degenerate, disjoint, all-covering, reversed); d=1 '
                 'exhaustive for n<=3 (n=4: multisets in quick, sequences in thorough) x every page '
                 'size x all 81 queries; d=1,2,3 seeded stream with n<=12 (thorough n<=60), ~40 queries '
-                'per build; node ranges for every (n,page_size), n<=200; reversed rows (min>max) for '
-                'model agreement only.  One evaluation = one query on one build (three results), or '
-                'one (n,page_size) of the range check.  A query is non-trivial when it matches some '
-                'but not all finite rows; distinct = distinct (d, page_size, rows, query)')
-    full, one = [], []          # builds compared through rtree_case_packed / rtree_case_1d
+                'per build; every (n,page_size) with n<=200 over n unit intervals, 9 queries each.  '
+                'Compared through the public API only (intersects, covers_overlaps, total_bounds, '
+                'pickle) with the model on keys=identity (C03_independent) and with a brute-force '
+                'oracle; internals (_keys, _bounds_tree, node ranges) are optional extras.  One '
+                'evaluation = one query on one build (three results).  A query is non-trivial when it '
+                'matches some but not all finite rows; distinct = distinct (d, page_size, rows, query)')
+    pub, pub1, itree, ifull = [], [], [], []
     nb = 0
     seen = set()
 
-    def flush(group, fn, cty):
+    def flush_public(group, fn, cty):
         # kernel evaluation of the model on the accumulated builds (bounded memory)
         if not group:
             return
-        bad = C.coq_mismatches(IMPORTS, fn, cty, PRES_TY, [g[1] for g in group], [g[2] for g in group],
+        bad = C.coq_mismatches(IMPORTS, fn, cty, PUB_RES, [g[1] for g in group], [g[2] for g in group],
                                shard=max(40, min(400, len(group) // (3 * C.NCPU) + 1)), timeout=1500)
         for i in bad:
             if len(seen) > 6:
@@ -345,6 +347,25 @@ def run(rep):
             seen.add(sig)
             rep.violation(sig, what, rp)
         del group[:]
+
+    def flush_internal(group, fn, cty, rty, what):
+        if not group:
+            return
+        try:
+            bad = C.coq_mismatches(IMPORTS, fn, cty, rty, [g[1] for g in group], [g[2] for g in group],
+                                   shard=max(40, min(400, len(group) // (3 * C.NCPU) + 1)), timeout=1500)
+        except C.ModelUnavailable:
+            rep.count('internal-unavailable:' + what, len(group))
+            del group[:]
+            return
+        rep.count('internal-compared:' + what, len(group))
+        if bad:
+            rep.count('internal-differs-public-agrees', len(bad))
+            rep.extra.setdefault('internal_differs_example',
+                                 {'what': what, **C.jsonable(dict(zip(
+                                     ('d', 'rows', 'page_size', 'p'), group[bad[0]][0][:4])))})
+        del group[:]
+
     for d, rows, ps, p, queries, tag in gen_builds(rep, tier):
         b = Build(d, rows, ps, p, queries, tag).run()
         nb += 1
@@ -360,10 +381,14 @@ def run(rep):
                           {**b.meta(), 'error': b.error})
             continue
         eff = max(1, ps)
+        pages = -(-len(rows) // eff)
         if len(rows) and len(rows) % eff:
             rep.count('build:ragged_last_page')
-        if len(rows) and (len(b.tree) + 1) // 2 > -(-len(rows) // eff):
+        if len(rows) and pages & (pages - 1):
             rep.count('build:absent_pages')
+        for m in b.missing:
+            rep.count('internal-unavailable:' + m)
+        wf = U.well_formed(rows, d)
         if not check_oracle(rep, b):
             rep.count('oracle_failed')
             if rep.hist['oracle_failed'] >= 25:
@@ -371,24 +396,42 @@ def run(rep):
         if nb % 10 == 0:
             check_pickle(rep, b)
         if nb % 997 == 0:
-            rep.sample({**b.meta(), 'queries': b.queries[:2], 'keys': b.keys,
-                        'impl': b.impl[:2], 'total_bounds': b.tb}, cap=4)
+            rep.sample({**b.meta(), 'queries': b.queries[:2], 'impl': b.impl[:2],
+                        'total_bounds': b.tb}, cap=4)
         # keep only the texts for the kernel and what is needed to re-run the build
         light = (d, rows, ps, p, queries, tag)
-        if queries is Q1D:
-            one.append((light, b.case_1d(), b.result_packed()))
-        else:
-            full.append((light, b.case_full(), b.result_packed()))
+        if wf:
+            if queries is Q1D:
+                pub1.append((light, b.case_public_1d(), b.result_public()))
+            else:
+                pub.append((light, b.case_public(), b.result_public()))
+            if b.keys is not None and b.tree is not None and nb % 3 == 0:
+                itree.append((light, b.case_tree(), b.result_tree()))
+        elif b.keys is not None and b.tree is not None:
+            # reversed rows: outside the theorems, the answer depends on the permutation
+            ifull.append((light, b.case_full(), b.result_full()))
         del b
-        if len(full) >= 8000:
-            flush(full, PFN, CASE_TY)
-        if len(one) >= 12000:
-            flush(one, P1FN, CASE1_TY)
-    flush(one, P1FN, CASE1_TY)
-    flush(full, PFN, CASE_TY)
+        if len(pub) >= 8000:
+            flush_public(pub, PUB_FN, PUB_TY)
+        if len(pub1) >= 12000:
+            flush_public(pub1, PUB1_FN, PUB1_TY)
+        if len(itree) >= 20000:
+            flush_internal(itree, TREE_FN, TREE_TY, TREE_RES, '_bounds_tree')
+    flush_public(pub1, PUB1_FN, PUB1_TY)
+    flush_public(pub, PUB_FN, PUB_TY)
+    rep.extra['t_public_s'] = round(_t.time() - rep.t0, 1)
     rep.extra['builds'] = nb
+    if rep.violations:
+        # already refuted through the public API: the remaining sweeps add nothing
+        rep.count('skipped-after-violation:sizes,internals')
+        run_log2(rep, tier)
+        return
+    flush_internal(itree, TREE_FN, TREE_TY, TREE_RES, '_bounds_tree')
+    flush_internal(ifull, FULL_FN, CASE_TY, FULL_RES, 'reversed-rows')
     rep.extra['cpu_python_s'] = round(_t.process_time(), 1)
     rep.extra['t_coq_s'] = round(_t.time() - rep.t0, 1)
+    run_sizes(rep, tier)
+    rep.extra['t_sizes_s'] = round(_t.time() - rep.t0, 1)
     run_ranges(rep, tier)
     rep.extra['t_ranges_s'] = round(_t.time() - rep.t0, 1)
     run_log2(rep, tier)
@@ -407,19 +450,18 @@ def _plain(r):
 
 
 def diagnose(b):
-    """which component differs from the model (one readable kernel evaluation of this case)"""
-    case = (N(b.d), [_frow(r) for r in b.rows], [N(k) for k in b.keys], N(max(0, b.page_size)),
-            [U.zquery(q) for q in b.queries])
+    """which public result differs from the model (one readable kernel evaluation, keys = identity)"""
+    case = (N(b.d), [_frow(r) for r in b.rows], [N(k) for k in range(len(b.rows))],
+            N(max(0, b.page_size)), [U.zquery(q) for q in b.queries])
     txt = C.coq_eval(IMPORTS, f'{FN} {C.coq(case)}')
     impl_sorted = [[sorted(x) for x in tr] for tr in b.impl]
-    rp = {**b.meta(), 'keys': b.keys, 'scale': U.SCALE, 'model': txt,
-          'impl': {'bounds_tree': b.tree, 'total_bounds': b.tb, 'results': impl_sorted}}
+    rp = {**b.meta(), 'scale': U.SCALE, 'model_keys': 'identity',
+          'impl': {'total_bounds': b.tb, 'results': impl_sorted}}
     try:
-        mtree, mtb, mper = parse_model(txt)
-        if [list(r) for r in mtree] != [_plain(r) for r in b.tree]:
-            return ('model:bounds_tree', '_bounds_tree differs from the proven model', rp)
+        _mtree, mtb, mper = parse_model(txt)
         if list(mtb) != _plain(b.tb):
-            return ('model:total_bounds', 'total_bounds differs from the proven model', rp)
+            return ('model:total_bounds', 'total_bounds differs from the proven model',
+                    {**rp, 'model': list(mtb)})
         for j, (m, tr) in enumerate(zip(mper, impl_sorted)):
             m = [list(z) for z in m]
             if m != tr:
@@ -427,38 +469,109 @@ def diagnose(b):
                 if m[0] != tr[0]:
                     return ('model:intersects', 'intersects differs from the proven model', rp2)
                 return ('model:covers_overlaps', 'covers_overlaps differs from the proven model', rp2)
-    except Exception as e:  # unparsable: report the raw texts
+    except Exception as e:  # unparsable: report the raw text
         rp['parse_error'] = repr(e)
-    return ('model:differs', 'index build / query results differ from the proven model', rp)
+    rp['model'] = txt[:4000]
+    return ('model:differs', 'query results differ from the proven model', rp)
 
 
-def range_pairs(tier):
-    nmax = 200
-    for n in range(1, nmax + 1):
+# --------------------------------------------------------------------------
+# every (n, page_size): public
+# --------------------------------------------------------------------------
+def size_pairs():
+    for n in range(1, 201):
         for ps in list(range(1, n + 2)) + [512]:
             yield n, ps
 
 
-def run_ranges(rep, tier):
-    """(iii) the array-heap arithmetic for every (n, page_size), n <= 200.
-    * tree length and _leaf_start(): implementation = model for every (n, page_size);
-    * node -> [start, stop): the real _start_index/_stop_index of every node of every one of
-      these trees (a) satisfy the partition laws (children split the parent, leaves are pages,
-      the root spans all rows), (b) equal the model's for one tree of every distinct
-      (tree length, page_size) and (c) are equal for trees of equal (tree length, page_size)."""
+def size_queries(n, ps, k):
+    """queries over the n unit intervals [i, i+1]: everything, nothing, the two ends, one page,
+    a page boundary, the ragged tail"""
+    a = (k * 7919) % n
+    return [[-0.5, n + 1.5], [n + 1.5, n + 2.0], [-1.0, -0.5], [0.0, 0.0], [float(n), float(n)],
+            [float(a), float(min(n, a + ps))], [a + 0.5, a + 0.5],
+            [float(max(0, n - (n % ps or ps))), n + 0.5], [a + 1.0, a + 1.0]]
+
+
+def run_sizes(rep, tier):
+    """the ragged-tree arithmetic seen from outside: for every (n, page_size), n <= 200, an index
+    over the unit intervals [i, i+1] answers 9 queries as the oracle says (all pairs) and as the
+    model says (all pairs with n <= 24 and a seeded sample of the others)"""
     from spatialpandas.spatialindex import HilbertRtree
-    shape_cases, shape_res, shape_meta = [], [], []
+    rng = rep.rng
+    cases, results, metas = [], [], []
+    k = 0
+    for n, ps in size_pairs():
+        k += 1
+        rows = [[float(i), float(i + 1)] for i in range(n)]
+        qs = size_queries(n, ps, k)
+        try:
+            t = HilbertRtree(np.array(rows), p=rng.choice([1, 10]), page_size=ps)
+            per = []
+            for q in qs:
+                it = t.intersects(tuple(q))
+                cv, ov = t.covers_overlaps(tuple(q))
+                per.append(([int(x) for x in it], [int(x) for x in cv], [int(x) for x in ov]))
+            tb = [float(x) for x in t.total_bounds]
+        except Exception as e:
+            rep.violation(f'raises:{type(e).__name__}', f'index build or query raised {e!r}'[:300],
+                          {'d': 1, 'rows': rows, 'page_size': ps, 'p': 10, 'queries': qs})
+            return
+        rep.evaluations += len(qs)
+        inter, cov, _tie = U.brute_batch(rows, qs, 1)
+        for j, (q, (it, cv, ov)) in enumerate(zip(qs, per)):
+            ei = np.flatnonzero(inter[j]).tolist()
+            ec = np.flatnonzero(cov[j]).tolist()
+            eo = np.flatnonzero(inter[j] & ~cov[j]).tolist()
+            if sorted(it) != ei or sorted(cv) != ec or sorted(ov) != eo or len(set(it)) != len(it):
+                rep.violation('oracle:sizes', 'a query over n unit intervals is answered wrongly',
+                              {'d': 1, 'rows': rows, 'page_size': ps, 'p': 10, 'queries': [q],
+                               'impl': [sorted(it), sorted(cv), sorted(ov)], 'expected': [ei, ec, eo]})
+                return
+        if tb != [0.0, float(n)]:
+            rep.violation('oracle:total_bounds', 'total_bounds is not the union of the finite boxes',
+                          {'d': 1, 'rows': rows, 'page_size': ps, 'p': 10, 'queries': qs[:1], 'impl': tb})
+            return
+        if n <= 24 or rng.random() < (0.01 if tier == 'quick' else 0.2):
+            b = Build(1, rows, ps, 10, qs, 'sizes')
+            b.tb, b.impl = tb, per
+            cases.append(b.case_public())
+            results.append(b.result_public())
+            metas.append((1, rows, ps, 10, qs, 'sizes'))
+    rep.count('sizes:(n,page_size)', k)
+    rep.count('sizes:model_compared', len(cases))
+    bad = C.coq_mismatches(IMPORTS, PUB_FN, PUB_TY, PUB_RES, cases, results,
+                           shard=max(10, len(cases) // (3 * C.NCPU) + 1), timeout=1500)
+    for i in bad[:1]:
+        sig, what, rp = diagnose(Build(*metas[i]).run())
+        rep.violation(sig, what, rp)
+
+
+# --------------------------------------------------------------------------
+# optional: the private node arithmetic
+# --------------------------------------------------------------------------
+def run_ranges(rep, tier):
+    """OPTIONAL (internals): tree length, _leaf_start(), _start_index/_stop_index of every node
+    for every (n, page_size), n <= 200, against the partition laws and the model.  Skipped and
+    counted when the private attributes are not there; disagreements are counted, not reported."""
+    from spatialpandas.spatialindex import HilbertRtree
+    shape_cases, shape_res = [], []
     reps = {}
-    for n, ps in range_pairs(tier):
-        t = HilbertRtree(np.zeros((n, 2)), p=1, page_size=ps)
-        ls, rg = U.node_ranges(t.numba_rtree)
-        ls = int(ls)
-        m = rg.shape[0]
-        shape_cases.append((N(n), N(ps)))
-        shape_res.append((N(m), N(ls)))
-        shape_meta.append({'n': n, 'page_size': ps, 'ranges_check': True})
-        rep.evaluations += 1
-        # (a) independent arithmetic laws, vectorised
+    nlaw = 0
+    for n, ps in size_pairs():
+        try:
+            t = HilbertRtree(np.zeros((n, 2)), p=1, page_size=ps)
+            ls, rg = U.node_ranges(t.numba_rtree)
+            ls = int(ls)
+            rg = np.asarray(rg)
+            m = rg.shape[0]
+            assert rg.ndim == 2 and rg.shape[1] == 2
+        except Exception:
+            rep.count('internal-unavailable:node_ranges')
+            return
+        if tier != 'quick' or n <= 48 or (n * 31 + ps) % 10 == 0:
+            shape_cases.append((N(n), N(ps)))
+            shape_res.append((N(m), N(ls)))
         node = np.arange(m)
         internal = node[2 * node + 2 < m]
         leaves = node[2 * node + 2 >= m]
@@ -471,39 +584,33 @@ def run_ranges(rep, tier):
                and np.array_equal(rg[leaves, 1], (leaves - ls + 1) * ps)
                and rg[0, 0] == 0 and rg[0, 1] >= n
                and nleaves >= pages and (nleaves == 1 or nleaves // 2 < pages))
-        if not okr:
-            rep.violation('ranges:laws', 'node ranges do not partition the rows / tree not minimal',
-                          {'n': n, 'page_size': ps, 'ranges': rg.tolist(), 'leaf_start': ls,
-                           'ranges_check': True})
-            return
         key = (m, ps)
         if key not in reps:
             reps[key] = (n, rg)
         elif not np.array_equal(reps[key][1], rg):
-            rep.violation('ranges:shape-dependent',
-                          'node ranges differ between two trees of equal length and page size',
-                          {'n': n, 'other_n': reps[key][0], 'page_size': ps, 'ranges_check': True})
-            return
-    rep.count('ranges:(n,page_size)', len(shape_cases))
-    rep.count('ranges:distinct(tree_length,page_size)', len(reps))
-    bad = C.coq_mismatches(IMPORTS, 'shape_case', 'nat * nat', 'nat * nat', shape_cases, shape_res,
-                           shard=max(50, len(shape_cases) // (3 * C.NCPU) + 1), timeout=1500)
-    for i in bad[:1]:
-        rep.violation('model:tree_shape', 'tree length / _leaf_start differ from the proven model',
-                      {**shape_meta[i], 'impl': [int(x) for x in shape_res[i]],
-                       'model': C.coq_eval(IMPORTS, f'shape_case {C.coq(shape_cases[i])}')})
-    keys = sorted(reps)
-    cases = [(N(reps[k][0]), N(k[1])) for k in keys]
-    results = [C.Raw('[' + '; '.join(f'({a}, {b})' for a, b in reps[k][1].tolist()) + ']%nat') for k in keys]
-    bad = C.coq_mismatches(IMPORTS, 'node_ranges_case', 'nat * nat', 'list (nat * nat)', cases, results,
-                           shard=max(10, len(cases) // (3 * C.NCPU) + 1), timeout=1500)
-    for i in bad[:1]:
-        k = keys[i]
-        rep.violation('model:node_ranges',
-                      '_start_index / _stop_index differ from the proven model',
-                      {'n': reps[k][0], 'page_size': k[1], 'ranges_check': True,
-                       'impl': reps[k][1].tolist(),
-                       'model': C.coq_eval(IMPORTS, f'node_ranges_case {C.coq(cases[i])}')})
+            okr = False
+        if not okr:
+            nlaw += 1
+    rep.count('internal-compared:node_ranges', len(reps))
+    rep.count('internal-compared:tree_shape', len(shape_cases))
+    try:
+        bad = C.coq_mismatches(IMPORTS, 'shape_case', 'nat * nat', 'nat * nat', shape_cases, shape_res,
+                               shard=max(50, len(shape_cases) // (3 * C.NCPU) + 1), timeout=1500)
+        keys = sorted(reps)
+        cases = [(N(reps[k][0]), N(k[1])) for k in keys]
+        results = [C.Raw('[' + '; '.join(f'({a}, {b})' for a, b in reps[k][1].tolist()) + ']%nat')
+                   for k in keys]
+        bad2 = C.coq_mismatches(IMPORTS, 'node_ranges_case', 'nat * nat', 'list (nat * nat)', cases,
+                                results, shard=max(10, len(cases) // (3 * C.NCPU) + 1), timeout=1500)
+    except C.ModelUnavailable:
+        rep.count('internal-unavailable:node_ranges')
+        return
+    ndiff = nlaw + len(bad) + len(bad2)
+    if ndiff:
+        rep.count('internal-differs-public-agrees', ndiff)
+        rep.extra.setdefault('internal_differs_example',
+                             {'what': 'node_ranges', 'laws_broken': nlaw, 'shape_differs': len(bad),
+                              'ranges_differ': len(bad2)})
 
 
 def run_log2(rep, tier):
@@ -521,7 +628,7 @@ def run_log2(rep, tier):
     if vals != [(k - 1).bit_length() for k in ks]:
         rep.violation('log2_up:model', 'Nat.log2_up differs from the integer log2_up', {'log2_check': True})
     rep.count('log2_values', kmax)
-    # the real build at the powers of two (page_size 1): tree length = 2 * 2^log2_up(n) - 1
+    # the real build around the powers of two (page_size 1): public answers; tree length as an extra
     from spatialpandas.spatialindex import HilbertRtree
     top = 13 if tier == 'quick' else 17
     for j in range(0, top):
@@ -529,18 +636,28 @@ def run_log2(rep, tier):
             n = 2 ** j + e
             if n < 1:
                 continue
-            t = HilbertRtree(np.zeros((n, 2)), p=1, page_size=1)
-            if t._bounds_tree.shape[0] != 2 * 2 ** ((n - 1).bit_length()) - 1:
-                rep.violation('log2_up:tree_length', 'tree length is not 2*2^log2_up(num_pages)-1',
-                              {'n': n, 'page_size': 1, 'tree_length': int(t._bounds_tree.shape[0]),
-                               'log2_check': True})
-                return
+            t = HilbertRtree(np.column_stack([np.arange(n, dtype=float), np.arange(n, dtype=float) + 1]),
+                             p=10, page_size=1)
+            for q in ((-1.0, n + 2.0), (n - 0.5, n + 5.0), (0.25, 0.5), (n / 2, n / 2), (n + 1.5, n + 2.0)):
+                lo, hi = max(0, math.ceil(q[0]) - 1), min(n - 1, math.floor(q[1]))
+                exp = list(range(lo, hi + 1)) if q[0] <= n and q[1] >= 0 else []
+                got_i = sorted(int(x) for x in t.intersects(q))
+                cv, ov = t.covers_overlaps(q)
+                if got_i != exp or sorted([int(x) for x in cv] + [int(x) for x in ov]) != exp:
+                    rep.violation('oracle:pow2', 'a query on an index of about 2^j rows is answered wrongly',
+                                  {'n': n, 'page_size': 1, 'query': list(q), 'log2_check': True,
+                                   'impl_len': len(got_i), 'expected_len': len(exp)})
+                    return
+            bt = getattr(t, '_bounds_tree', None)
+            if bt is None or getattr(bt, 'ndim', 0) != 2:
+                rep.count('internal-unavailable:_bounds_tree(length)')
+            elif bt.shape[0] != 2 * 2 ** ((n - 1).bit_length()) - 1:
+                rep.count('internal-differs-public-agrees')
 
 
 def replay(rep, rp):
-    if rp.get('ranges_check') or rp.get('log2_check'):
+    if rp.get('log2_check'):
         rep.tier_run = 'quick'
-        run_ranges(rep, 'quick')
         run_log2(rep, 'quick')
         for v in rep.violations:
             print(v['signature'], v['what'])
@@ -559,13 +676,14 @@ def replay(rep, rp):
         return False
     ok = check_oracle(rep, b)
     check_pickle(rep, b)
-    bad = C.coq_mismatches(IMPORTS, PFN, CASE_TY, PRES_TY, [b.case_full()], [b.result_packed()])
-    print('keys :', b.keys)
-    print('impl :', b.tree, b.tb, [[sorted(x) for x in tr] for tr in b.impl])
+    bad = []
+    if U.well_formed(rows, b.d):
+        bad = C.coq_mismatches(IMPORTS, PUB_FN, PUB_TY, PUB_RES, [b.case_public()], [b.result_public()])
+    print('impl :', b.tb, [[sorted(x) for x in tr] for tr in b.impl])
     if bad:
         sig, what, rp2 = diagnose(b)
         print(sig, what)
-        print('model (coordinates x%d):' % U.SCALE, rp2['model'])
+        print('model (keys = identity, coordinates x%d):' % U.SCALE, rp2.get('model'))
     for q in queries:
         print('brute:', q, U.brute(rows, q, b.d) if U.well_formed(rows, b.d) else 'n/a (reversed row)')
     for v in rep.violations:
